@@ -98,6 +98,14 @@ def register_core(reg):
             fn = ex.w.fun("spec_" + name, *(["V"] * n + [ret if ret != "V" else "V"]))
             res = fn(*[a.e for a in args])
             return ex.o.bool_(res) if ret == "bool" else SV(res)
+    unint("ok_type", 2)      # the class-level (_validate) part of ok / norm_of / accepts
+    unint("norm_type", 3)
+    unint("accepts_type", 2)
+
+    @reg.specfun("callable_v")
+    def callable_v(ex, st, args, cx):
+        out = list(ex.BUILTIN_FUNCS["callable"](ex, st, args, {}, cx, None))
+        return out[0][1]
     unint("accepts", 2)      # accepts(field, stored_value): the field's declared constraints hold of the value
     unint("ok", 2)           # ok(field, input): validation accepts the input
     unint("norm_of", 3)      # norm_of(field, input, result): result is the field's normalised form of input
